@@ -25,6 +25,7 @@ import (
 	"os"
 	"os/exec"
 	"runtime"
+	"runtime/pprof"
 	"sort"
 	"strings"
 	"sync"
@@ -47,7 +48,7 @@ const watchdog = 30 * time.Second
 
 type kase struct {
 	Family string
-	Stream *srvframe.Stream `json:",omitempty"`
+	Stream *srvframe.Stream  `json:",omitempty"`
 	Raw    *srvframe.RawCase `json:",omitempty"`
 	Note   string            `json:",omitempty"`
 	// expectations of the family, checked besides survival
@@ -207,7 +208,16 @@ func rawTranscript(obs *srvframe.Obs) []string {
 // runCases executes the cases on all cores. A watchdog hit is re-run three times on fresh
 // workers; if it persists it is reported and the family's remaining cases are abandoned (every
 // further hit would cost another 30 s), else it is an engine error.
+type famRec struct {
+	name string
+	n    int
+	gen  func(i int) *kase
+}
+
+var families []famRec
+
 func runCases(name string, n int, gen func(i int) *kase) {
+	families = append(families, famRec{name, n, gen})
 	start := time.Now()
 	var next int64 = -1
 	var wg sync.WaitGroup
@@ -707,7 +717,7 @@ func finish(exhaustive bool, note string) {
 		f := best[k]
 		// replay before reporting (hangs were already confirmed three times; process deaths are
 		// re-run through the subprocess by --replay only)
-		if !strings.HasSuffix(k, "-does-not-finish") && f.k.Family != "nesting" {
+		if !strings.HasSuffix(k, "-does-not-finish") && f.k.Family != "nesting" && !strings.HasPrefix(k, leakKey) {
 			w := srvframe.NewWorker(watchdog)
 			for rep := 0; rep < 3; rep++ {
 				fs, _, _ := execCase(w, f.k)
@@ -1072,18 +1082,128 @@ func main() {
 	if stats.idleRuns == 0 || stats.noSession == 0 || stats.writeFaults == 0 {
 		run.EngineError("vacuous run: idle=%d nosession=%d writefaults=%d", stats.idleRuns, stats.noSession, stats.writeFaults)
 	}
-	// global leak check: no goroutine of the server may be left anywhere in this process
-	time.Sleep(50 * time.Millisecond)
-	buf := make([]byte, 1<<24)
-	buf = buf[:runtime.Stack(buf, true)]
-	if n := bytes.Count(buf, []byte("imapserver.(*Conn).serve")); n > 0 {
-		k := &kase{Family: "global", Raw: &srvframe.RawCase{FailWriteAt: -1, Name: "end of run"}}
-		record("server-goroutine-left-at-end-of-run", fmt.Sprintf("%d serve goroutines still exist after every connection was closed and every server shut down", n), k, 0, []string{clip(string(buf), 3000)})
+	// global leak check: no goroutine of the server may be left anywhere in this process. Decided
+	// by state, not by a short wait: a goroutine that is on its way out disappears, one that is
+	// blocked for good (a send nobody receives) is still there after any wait; the wait is long
+	// only so that a loaded machine cannot turn "still exiting" into a report
+	var left map[string]int
+	var dump string
+	for deadline := time.Now().Add(20 * time.Second); ; {
+		left, dump = serverGoroutines()
+		if len(left) == 0 || time.Now().After(deadline) {
+			break
+		}
+		time.Sleep(20 * time.Millisecond)
+	}
+	var fns []string
+	for fn := range left {
+		fns = append(fns, fn)
+	}
+	sort.Strings(fns)
+	for _, fn := range fns {
+		key := leakKey
+		if fn != "(*Conn).serve" {
+			key += ":" + fn
+		}
+		// attribution: the other families are quiet now, so the cases can be re-run one at a time and
+		// the first one after which the number of such goroutines stays up is a replayable input
+		k, msg := attributeLeak(fn)
+		if k == nil {
+			k = &kase{Family: "global", Raw: &srvframe.RawCase{FailWriteAt: -1, Name: "end of run"}}
+			msg = "no single case reproduces it when run alone"
+		}
+		record(key, fmt.Sprintf("%d goroutines inside imapserver.%s still exist after every connection was closed and every server shut down; %s", left[fn], fn, msg), k, 0, []string{clip(dump, 3000)})
 	}
 	run.Sample("mutation", "search-sizes: duplicate byte 37 -> a SEARCH LARGER 100 SMALLER 42949672966")
 	run.Sample("crash-point", "append-sync-literal cut at byte 31/62 then read error")
 	run.Sample("raw", "\"t FETCH 1 \" + \"({1\" + CRLF")
 	finish(true, "")
+}
+
+const leakKey = "server-goroutine-left-at-end-of-run"
+
+// leakAfter runs one case alone and reports whether the number of goroutines whose outermost
+// imapserver frame is fn is higher afterwards and stays higher (1 s of polling: only used to name a
+// culprit for a leak the end-of-run check has already established, and by --replay).
+func leakAfter(k *kase, fn string) bool {
+	n0 := runtime.NumGoroutine()
+	before, _ := map[string]int(nil), ""
+	if fn != "" {
+		before, _ = serverGoroutines()
+	}
+	w := srvframe.NewWorker(watchdog)
+	execCase(w, k)
+	w.Close()
+	for deadline := time.Now().Add(time.Second); ; {
+		if runtime.NumGoroutine() <= n0 {
+			return false
+		}
+		if fn != "" {
+			if after, _ := serverGoroutines(); after[fn] <= before[fn] {
+				return false
+			}
+		}
+		if time.Now().After(deadline) {
+			return true
+		}
+		time.Sleep(2 * time.Millisecond)
+	}
+}
+
+func attributeLeak(fn string) (*kase, string) {
+	budget := time.Now().Add(90 * time.Second)
+	for _, f := range families {
+		for i := 0; i < f.n && i < 5000; i++ {
+			if time.Now().After(budget) {
+				return nil, ""
+			}
+			k := f.gen(i)
+			if k == nil || !leakAfter(k, "") { // cheap filter: the goroutine count alone
+				continue
+			}
+			if leakAfter(k, fn) && leakAfter(k, fn) {
+				return k, "each run of this case alone leaves one more behind (3 of 3 runs): " + k.describe()
+			}
+		}
+	}
+	return nil, ""
+}
+
+// serverGoroutines lists the goroutines that have an imapserver frame on their stack, keyed by
+// the outermost such function (the goroutine's entry point into the package).
+func serverGoroutines() (map[string]int, string) {
+	// the aggregated profile (identical stacks are merged, with a count): its size does not grow
+	// with the number of leaked goroutines, unlike runtime.Stack
+	var prof bytes.Buffer
+	pprof.Lookup("goroutine").WriteTo(&prof, 1)
+	const pkg = "github.com/emersion/go-imap/v2/imapserver."
+	out := map[string]int{}
+	var dump strings.Builder
+	for _, g := range strings.Split(prof.String(), "\n\n") {
+		outer, n := "", 0
+		for li, line := range strings.Split(g, "\n") {
+			if li == 0 || !strings.HasPrefix(line, "#") {
+				if strings.Contains(line, " @ ") {
+					fmt.Sscan(line, &n)
+				}
+				continue
+			}
+			f := strings.Split(line, "\t")
+			if len(f) < 3 || !strings.HasPrefix(f[2], pkg) {
+				continue
+			}
+			fn := f[2][len(pkg):]
+			if k := strings.LastIndex(fn, "+0x"); k > 0 {
+				fn = fn[:k]
+			}
+			outer = fn
+		}
+		if outer != "" && n > 0 {
+			out[outer] += n
+			dump.WriteString(g + "\n\n")
+		}
+	}
+	return out, dump.String()
 }
 
 func replay() {
@@ -1127,6 +1247,17 @@ func replay() {
 		}
 		for _, g := range fs {
 			record(g.Key, g.Msg, k, 0, trans)
+		}
+		if strings.HasPrefix(f.Key, leakKey) {
+			fn := strings.TrimPrefix(strings.TrimPrefix(f.Key, leakKey), ":")
+			if fn == "" {
+				fn = "(*Conn).serve"
+			}
+			if leakAfter(k, fn) {
+				_, dump := serverGoroutines()
+				fmt.Println(clip(dump, 3000))
+				record(f.Key, "a goroutine inside imapserver."+fn+" is still there after the connection ended", k, 0, nil)
+			}
 		}
 	}
 	if len(best) == 0 {
